@@ -41,7 +41,8 @@ def cases(draw, tier="quick", dim=3):
     n = len(sc["targets"])
     if mode in DIST:
         # 0 is a legitimate (if extreme) distance threshold: nothing can beat it
-        pool = [0.0, 0.2, 0.5, 1.0, 2.0, 4.0, 50.0] if dim == 3 else [0.0, 2.0, 10.0, 50.0, 200.0, 1000.0]
+        # ... and "inf" (written as a string in the JSON descriptor) the loosest one: everything paired beats it
+        pool = [0.0, 0.2, 0.5, 1.0, 2.0, 4.0, 50.0, "inf"] if dim == 3 else [0.0, 2.0, 10.0, 50.0, 200.0, 1000.0, "inf"]
     else:
         pool = [0.0, 0.1, 0.3, 0.5, 0.7, 0.9, 1.0]
     rows = []
@@ -96,7 +97,7 @@ def _body(ctx, d):
     if results is None:
         return
     # only target-labelled ordinary GTs count for FN (the manager filters the rest before matching)
-    rows = [list(r) for r in d["rows"]]
+    rows = [[float(x) for x in r] for r in d["rows"]]  # float("inf") for the "inf" entries
     if d["from_scores"]:
         # thresholds straddling actual scores exercise status changes precisely
         vals = sorted({float(r.get_matching(D.mode(d["mode"])).value) for r in results if r.ground_truth_object is not None})
